@@ -294,7 +294,7 @@ func (g *Gen) noteStore(c *FnCtx, s *summary, addr ssa.Value) {
 			g.noteStructStore(c, s, elem)
 			return
 		}
-		s.vars["E:"+bare(g.sortOf(c, elem))] = true
+		s.vars[g.elemHVName(c, elem)] = true
 	case *ssa.Global:
 		s.vars["G:"+g.relPkg(a.Pkg.Pkg.Path())+"."+a.Name()] = true
 	default:
@@ -307,7 +307,7 @@ func (g *Gen) noteStore(c *FnCtx, s *summary, addr ssa.Value) {
 			return
 		}
 		if at, isArr := pt.Elem().Underlying().(*types.Array); isArr {
-			s.vars["E:"+bare(g.sortOf(c, at.Elem()))] = true
+			s.vars[g.elemHVName(c, at.Elem())] = true
 			return
 		}
 		s.vars["C:"+bare(g.sortOf(c, pt.Elem()))] = true
@@ -329,7 +329,7 @@ func (g *Gen) noteStructStore(c *FnCtx, s *summary, T types.Type) {
 func (g *Gen) noteArgEscape(c *FnCtx, s *summary, a ssa.Value) {
 	switch u := a.Type().Underlying().(type) {
 	case *types.Slice:
-		s.vars["E:"+bare(g.sortOf(c, u.Elem()))] = true
+		s.vars[g.elemHVName(c, u.Elem())] = true
 	case *types.Pointer:
 		g.noteStore(c, s, a)
 	case *types.Signature:
@@ -341,7 +341,7 @@ func (g *Gen) noteArgEscape(c *FnCtx, s *summary, a ssa.Value) {
 				g.noteStore(c, s, mi.X)
 			}
 			if sl, isSl := mi.X.Type().Underlying().(*types.Slice); isSl {
-				s.vars["E:"+bare(g.sortOf(c, sl.Elem()))] = true
+				s.vars[g.elemHVName(c, sl.Elem())] = true
 			}
 		}
 	}
@@ -430,7 +430,7 @@ func (g *Gen) noteBuiltin(c *FnCtx, s *summary, b *ssa.Builtin, cc *ssa.CallComm
 	switch b.Name() {
 	case "append", "copy":
 		if sl, ok := cc.Args[0].Type().Underlying().(*types.Slice); ok {
-			s.vars["E:"+bare(g.sortOf(c, sl.Elem()))] = true
+			s.vars[g.elemHVName(c, sl.Elem())] = true
 		}
 	case "delete":
 		m := cc.Args[0].Type().Underlying().(*types.Map)
